@@ -310,6 +310,18 @@ build b: loop
 build all: phony a b
 default all
 """, 1, []),
+    # a rule with an unknown `deps` type is only noticed when its first command completes, while others still run
+    "jobserver/unknown_deps_type": ("""rule slow
+  command = echo S $out $$(date +%s.%N) >> log; sleep 0.8; echo E $out $$(date +%s.%N) >> log; touch $out
+rule odd
+  command = sleep 0.2; touch $out
+  deps = bogus
+build b: odd
+build a1: slow
+build a2: slow
+build all: phony a1 a2 b
+default all
+""", 2, []),
     # ... and with the failing command on the implicit slot: the other command keeps its token while it still runs
     "jobserver/finish_fails_running": ("""rule slow
   command = echo S $out $$(date +%s.%N) >> log; sleep 0.8; echo E $out $$(date +%s.%N) >> log; touch $out
